@@ -217,3 +217,20 @@ pub(crate) fn k_picture_gif_total() {
     let data: [u8; 11] = kani::any();
     let _ = PictureMetrics::try_gif(&data);
 }
+
+// duration() at the extremes of STREAMINFO's ranges (concrete values: exact seconds and nanoseconds, no overflow)
+#[kani::proof]
+pub(crate) fn k_metadata_duration_extremes() {
+    let totals: [u64; 4] = [1, 44100, (1 << 36) - 1, 18_446_744_074];
+    let rates: [u32; 4] = [1, 44100, 96000, (1 << 20) - 1];
+    let ti: usize = kani::any();
+    let ri: usize = kani::any();
+    kani::assume(ti < 4 && ri < 4);
+    let (total, rate) = (totals[ti], rates[ri]);
+    let s = Streaminfo { minimum_block_size: 16, maximum_block_size: 16, minimum_frame_size: None, maximum_frame_size: None,
+        sample_rate: rate, channels: NonZero::new(2).unwrap(), bits_per_sample: SignedBitCount::<32>::new::<16>(),
+        total_samples: NonZero::new(total), md5: None };
+    let d = s.duration().unwrap();
+    vk_assert!(d.as_secs() == total / rate as u64, "duration: whole seconds = samples / rate, up to the largest 36-bit sample count");
+    vk_assert!(d.subsec_nanos() as u64 == (total % rate as u64) * 1_000_000_000 / rate as u64, "duration: nanoseconds from the remainder");
+}
